@@ -6,6 +6,7 @@ between / above each bound) against Tmin <= T < Tmax with non-positive bounds un
 active reaction among adjacent windows; KROME window fields."""
 import random
 import re
+import subprocess
 from fractions import Fraction
 
 from .. import framework as fw
@@ -15,7 +16,8 @@ from ..impl import Network, Reaction, ReactionType, reset_globals
 from naunet.reactions.kromereaction import KROMEReaction
 
 TRUST = ["the zero outside the window comes from the template's initialiser `k[NREACTIONS] = {0.0}`; its presence and "
-         "position are checked textually here (compiled execution is part of the C05 channel-C runs)"]
+         "position are checked textually, and the rendered Odeint and CVODE-dense right-hand sides are compiled against the "
+         "stand-in headers and run at a sequence of temperatures in one process (channel C)"]
 
 BOUNDS = [-9999.0, -1.0, 0.0, 5.0, 10.0, 10.5, 100.0, 300.0, 1000.0, 9999.0, 41000.0, 1e5,
           11604.525, 1234567.0, 0.1 + 0.2, 2.7255, 1e-3, 123456.789, 1e99, 157807.13, 5e-324, 99999.99999]
@@ -141,6 +143,53 @@ def check_desc(res, model, desc, tag, channel_b=False):
              nontrivial=any(g[0] != "none" for g in guards))
 
 
+CXX = fw.VERIF / "harness" / "cxx"
+SEQ_DESCS = [
+    {"reactions": [(["C", "O"], ["CO"]), (["C", "O"], ["CO"]), (["CO"], ["C", "O"])], "tmin": {0: 10.0, 1: 100.0}, "tmax": {0: 100.0, 1: 1000.0}},
+    {"reactions": [(["H", "H"], ["H2"]), (["H2"], ["H", "H"]), (["H", "CO"], ["HCO"])], "tmin": {0: 300.0, 2: -1.0}, "tmax": {0: -1.0, 2: 50.0}},
+]
+
+
+def check_sequence(res, desc, tag):
+    """channel C: the rendered right-hand side (and the Odeint Jacobian) evaluated at a sequence of temperatures in one
+    process must give, at each temperature, what a fresh process gives there: a reaction that has left its window
+    contributes nothing, whatever was evaluated before"""
+    temps = sorted({t for b in list(desc.get("tmin", {}).values()) + list(desc.get("tmax", {}).values()) if b > 0 for t in (b * 0.5, b, b * 2.0)})
+    if not temps:
+        return
+    order = [temps[len(temps) // 2]] + temps[::-1] + temps + [temps[0]]
+    for solver, method, srcs, driver, inc in [
+            ("odeint", "rosenbrock4", ["naunet_ode.cpp", "naunet_constants.cpp", "naunet_physics.cpp", "naunet_utilities.cpp"], "seq_odeint.cpp", "boost"),
+            ("cvode", "dense", ["naunet_fex.cpp", "naunet_rates.cpp", "naunet_constants.cpp", "naunet_physics.cpp", "naunet_utilities.cpp"], "seq_cvode.cpp", "sundials")]:
+        case = {"kind": "c06-sequence", "desc": desc, "backend": f"{solver}/{method}", "temperatures": order}
+        net = ol.build_network(desc)
+        d = ol.render(net, solver, method, "cpu")
+        exe = d / "seq"
+        r = subprocess.run(["g++", "-std=c++17", "-O0", "-w", "-I", str(CXX / inc), "-I", str(d / "include"), "-o", str(exe),
+                            *[str(d / "src" / f) for f in srcs], str(CXX / driver)], stdout=subprocess.PIPE, stderr=subprocess.STDOUT, text=True)
+        if r.returncode != 0:
+            res.violation("correspondence", f"{solver}/{method}: rendered sources do not compile against the stand-in headers: {r.stdout[-500:]}", case)
+            ol.cleanup_scratch()
+            continue
+        run = lambda ts: subprocess.run([str(exe)] + [repr(t) for t in ts], stdout=subprocess.PIPE, text=True).stdout.splitlines()
+        together = run(order)
+        nonzero = any(float(x) != 0.0 for l in together for x in l.split())
+        res.count(f"sequence-run:{'some derivative non-zero' if nonzero else 'all derivatives zero'}")
+        if tag[0] == "fixed" and not nonzero:
+            res.violation("correspondence", f"{solver}/{method}: the sequence driver saw only zero derivatives on a network with an unwindowed reaction "
+                                            f"(the driver no longer reaches the rendered right-hand side)", case)
+        for k, T in enumerate(order):
+            alone = run([T])
+            if k >= len(together) or not alone or together[k].split() != alone[0].split():
+                res.violation("oracle", f"{solver}/{method}: the derivative at T={T} differs when T={order[:k]} were evaluated before it in the same process: "
+                                        f"{(together[k] if k < len(together) else '')[:120]} vs fresh {alone[0][:120] if alone else ''} (a reaction outside its "
+                                        f"window keeps a stale coefficient)", case)
+                break
+        res.count(f"sequence-run:{solver}")
+        ol.cleanup_scratch()
+    res.case(("c06-sequence", tag, repr(desc)), sample={"temperatures": order[:6]}, nontrivial=True)
+
+
 KROME_FIELDS = [("10", 10.0), ("1d4", 1e4), (">10", 10.0), (".GE.2.73d0", 2.73), ("<1e4", 1e4), (".LT.3d2", 300.0), (".LE.41000", 41000.0),
                 ("NONE", None), ("N", None), ("none", None), ("", None), ("N/A", None), ("2.5d2", 250.0), (".GT.1.5d1", 15.0)]
 
@@ -177,6 +226,12 @@ def run(res, info):
     n_b = 3 if res.tier == "quick" else 25
     for i in range(n_a):
         check_desc(res, model, gen_desc(rng), i, channel_b=(i < n_b))
+    for i, d in enumerate(SEQ_DESCS):
+        check_sequence(res, d, ("fixed", i))
+    for i in range(0 if res.tier == "quick" else 10):
+        d = gen_desc(rng)
+        if any(v > 0 for v in list(d["tmin"].values()) + list(d["tmax"].values())):
+            check_sequence(res, d, ("gen", i))
     for i in range(60 if res.tier == "quick" else 400):
         check_krome(res, rng, i)
     if model is not None:
